@@ -64,6 +64,14 @@ pub fn configs() -> Vec<(String, BuildSpec)> {
     s.scripts.insert("pre_install", ScriptSpec { script: "true".into(), flags: None, prog: None });
     s.deps.insert("requires", vec![DepSpec { ctor: "any", name: "x".into(), version: "".into() }]);
     v.push(("5 users, gzip, scriptlet, dependency".into(), s));
+    // the same dependency given more than once, and the dependencies the builder derives from file owners given by hand as well
+    let mut s = v[3].1.clone();
+    s.name = "c3dups".into();
+    let any = |n: &str| DepSpec { ctor: "any", name: n.into(), version: "".into() };
+    s.deps.insert("requires", vec![any("r1"), any("r2"), any("r1"), any("r3"), any("r2"), any("r4"), any("r5")]);
+    s.deps.insert("provides", vec![any("p1"), any("p2"), any("p3"), any("p1")]);
+    s.deps.insert("recommends", vec![DepSpec { ctor: "user", name: "user2".into(), version: "".into() }, any("m1"), DepSpec { ctor: "group", name: "group1".into(), version: "".into() }, any("m2"), DepSpec { ctor: "user", name: "user2".into(), version: "".into() }]);
+    v.push(("3 users, dependencies listed more than once, owner recommends also given by hand".into(), s));
     v
 }
 
@@ -175,7 +183,7 @@ pub fn run(ctx: &Ctx) -> i32 {
     }
     let env = Arc::new(Env::new(&ctx.repo, "c11"));
     let cfg = configs();
-    let seeds: u64 = if ctx.thorough() { 2000 } else { 256 };
+    let seeds: u64 = if ctx.thorough() { 20_000 } else { 256 };
     let clocks: [i64; 4] = [SD as i64, SD as i64 + 1, SD as i64 + 1_000_000, u32::MAX as i64];
     // warm the source-file cache outside any scenario
     for (_, s) in &cfg {
@@ -253,18 +261,62 @@ pub fn run(ctx: &Ctx) -> i32 {
     // ---- freshly started processes: OS randomness, TZ, working directory
     let mut b = Acc::new();
     let exe = ctx.exe();
-    let runs = if ctx.thorough() { 12 } else { 5 };
+    // the default environment and every single deviation from it, each with the OS's own randomness / clock and with a harness-chosen seed / clock
+    #[derive(Clone)]
+    struct EnvDev {
+        name: &'static str,
+        vars: Vec<(&'static str, String)>,
+        cwd: Option<std::path::PathBuf>,
+        umask: Option<u32>,
+    }
+    let dev = |name: &'static str, vars: &[(&'static str, &str)]| EnvDev { name, vars: vars.iter().map(|(k, v)| (*k, v.to_string())).collect(), cwd: None, umask: None };
+    let mut envs: Vec<EnvDev> = vec![
+        dev("default", &[]),
+        dev("TZ=UTC", &[("TZ", "UTC")]),
+        dev("TZ=Asia/Kathmandu", &[("TZ", "Asia/Kathmandu")]),
+        dev("TZ=America/Los_Angeles", &[("TZ", "America/Los_Angeles")]),
+        dev("TZ=Pacific/Kiritimati", &[("TZ", "Pacific/Kiritimati")]),
+        dev("TZ empty", &[("TZ", "")]),
+        dev("SOURCE_DATE_EPOCH later than the configured source date", &[("SOURCE_DATE_EPOCH", &(SD as u64 + 86_400).to_string())]),
+        dev("SOURCE_DATE_EPOCH earlier than the configured source date", &[("SOURCE_DATE_EPOCH", &(SD as u64 - 86_400).to_string())]),
+        dev("SOURCE_DATE_EPOCH=0", &[("SOURCE_DATE_EPOCH", "0")]),
+        dev("SOURCE_DATE_EPOCH not a number", &[("SOURCE_DATE_EPOCH", "yesterday")]),
+        dev("German locale", &[("LANG", "de_DE.UTF-8"), ("LC_ALL", "de_DE.UTF-8"), ("LANGUAGE", "de")]),
+        dev("HOME / USER / LOGNAME / HOSTNAME of another account", &[("HOME", "/nonexistent"), ("USER", "builder"), ("LOGNAME", "builder"), ("HOSTNAME", "buildhost.example")]),
+        dev("RPM-style build variables", &[("RPM_BUILD_ROOT", "/nonexistent/buildroot"), ("RPM_PACKAGE_NAME", "other"), ("RPM_ARCH", "s390x"), ("RPM_OS", "aix")]),
+    ];
+    envs.push(EnvDev { name: "working directory /", vars: vec![], cwd: Some("/".into()), umask: None });
+    envs.push(EnvDev { name: "working directory = scratch", vars: vec![], cwd: Some(env.dir().to_path_buf()), umask: None });
+    envs.push(EnvDev { name: "TMPDIR elsewhere", vars: vec![("TMPDIR", env.dir().to_string_lossy().to_string())], cwd: None, umask: None });
+    envs.push(EnvDev { name: "umask 077", vars: vec![], cwd: None, umask: Some(0o077) });
+    envs.push(EnvDev { name: "umask 000", vars: vec![], cwd: None, umask: Some(0) });
+    let runs = envs.len() * 2;
     for (ci, (name, _)) in cfg.iter().enumerate() {
         if cfg[ci].1.sign == Some(Key::Rsa4096) {
             continue;
         }
         let mut seen: BTreeMap<String, u32> = BTreeMap::new();
+        let mut by_env: BTreeMap<String, Vec<&'static str>> = BTreeMap::new();
         for r in 0..runs {
             b.evals += 1;
-            let tz = ["UTC", "Asia/Kathmandu", "America/Los_Angeles", "Pacific/Kiritimati", ""][r % 5];
-            let cwd = [std::env::temp_dir(), std::path::PathBuf::from("/"), env.dir().to_path_buf()][r % 3].clone();
+            let e = &envs[r / 2];
             let mut cmd = std::process::Command::new(&exe);
-            cmd.arg("c11-child").arg(ci.to_string()).current_dir(&cwd).env("TZ", tz);
+            cmd.arg("c11-child").arg(ci.to_string()).current_dir(e.cwd.clone().unwrap_or_else(std::env::temp_dir));
+            for v in ["TZ", "SOURCE_DATE_EPOCH", "LANG", "LC_ALL", "LANGUAGE"] {
+                cmd.env_remove(v);
+            }
+            for (k, v) in &e.vars {
+                cmd.env(k, v);
+            }
+            if let Some(um) = e.umask {
+                use std::os::unix::process::CommandExt;
+                unsafe {
+                    cmd.pre_exec(move || {
+                        libc::umask(um as libc::mode_t);
+                        Ok(())
+                    });
+                }
+            }
             if r % 2 == 1 {
                 cmd.arg((1000 + r).to_string()).arg((SD as i64 + r as i64 * 977).to_string());
             }
@@ -272,10 +324,11 @@ pub fn run(ctx: &Ctx) -> i32 {
                 Ok(o) => {
                     let line = String::from_utf8_lossy(&o.stdout).trim().to_string();
                     if line.starts_with("ERR") || line.len() != 64 {
-                        b.viol(Violation::new("processes", format!("child build failed: {} {}", line, String::from_utf8_lossy(&o.stderr)), json!({"configuration": name})).sig("clause", "build-fails"));
+                        b.viol(Violation::new("processes", format!("child build failed: {} {}", line, String::from_utf8_lossy(&o.stderr)), json!({"configuration": name, "environment": e.name})).sig("clause", "build-fails"));
                     } else {
                         b.nontrivial += 1;
-                        *seen.entry(line).or_insert(0) += 1;
+                        *seen.entry(line.clone()).or_insert(0) += 1;
+                        by_env.entry(line).or_default().push(e.name);
                     }
                 }
                 Err(e) => crate::ctx::machinery(&format!("cannot start child: {}", e)),
@@ -289,11 +342,11 @@ pub fn run(ctx: &Ctx) -> i32 {
         }
         b.count(&format!("configuration {:?}: {} distinct output(s) across processes", name, seen.len()));
         if seen.len() > 1 {
-            b.viol(Violation::new("processes", format!("configuration {:?}: {} different packages across freshly started processes / threads", name, seen.len()), json!({"configuration": name, "outputs": seen})).sig("clause", "not-reproducible").rank(ci as u64));
+            b.viol(Violation::new("processes", format!("configuration {:?}: {} different packages across freshly started processes / threads", name, seen.len()), json!({"configuration": name, "outputs": seen, "environments_per_output": by_env})).sig("clause", "not-reproducible").rank(ci as u64));
         }
         b.sample(ci as u64, || json!({"configuration": name, "process_runs": runs, "outputs": seen}));
     }
-    let s2 = SubReport::new("processes", "C", &format!("each unsigned / Ed25519 configuration built in {} freshly started processes (odd runs with harness-chosen seed and clock, even runs with the operating system's own randomness and clock) under 5 TZ values and 3 working directories; all outputs identical to each other and to the in-process runs", runs), b);
+    let s2 = SubReport::new("processes", "C", &format!("each unsigned / Ed25519 configuration built in {} freshly started processes (odd runs with harness-chosen seed and clock, even runs with the operating system's own randomness and clock) in the default environment and under every single deviation from it: {:?}; all outputs identical to each other and to the in-process runs (whose timestamps are checked against the source date)", runs, envs.iter().map(|e| e.name).collect::<Vec<_>>()), b);
     for s in [&s1, &s2] {
         if s.acc.nontrivial == 0 {
             crate::ctx::machinery(&format!("sub-check {} built nothing: vacuous", s.name));
